@@ -79,8 +79,41 @@ func (c *Ctx) mergeStates(states []*State) *State {
 	if out.lazy != nil && !sameEp {
 		defer func() { out.lazy.guards = guards }()
 	}
-	for i, s := range states {
+	for i := range states {
 		guards[i] = eq(selv, num(int64(i)))
+	}
+	// deferred calls registered on some of the merged paths only: kept, guarded by the paths that registered them
+	{
+		common := len(states[0].defers)
+		for _, st := range states[1:] {
+			n := 0
+			for n < len(st.defers) && n < common && st.defers[n].call == states[0].defers[n].call && st.defers[n].guard == states[0].defers[n].guard {
+				n++
+			}
+			common = n
+		}
+		differ := false
+		for _, st := range states {
+			if len(st.defers) != common {
+				differ = true
+			}
+		}
+		if differ {
+			ds := append([]deferred(nil), states[0].defers[:common]...)
+			for i, st := range states {
+				for _, d := range st.defers[common:] {
+					g := guards[i]
+					if d.guard != "" {
+						g = and(g, d.guard)
+					}
+					d.guard = g
+					ds = append(ds, d)
+				}
+			}
+			out.defers = ds
+		}
+	}
+	for i, s := range states {
 		delta := s.assumes.since(base)
 		if len(delta) > 0 {
 			out.assume(implies(guards[i], and(delta...)))
@@ -1171,10 +1204,22 @@ func (c *Ctx) runDefers(s *State) {
 	s.defers = nil
 	for i := len(ds) - 1; i >= 0; i-- {
 		d := ds[i]
-		if fv, ok := d.fn.(FuncV); ok && fv.Lit != nil {
-			c.inlineLit(fv.Lit, d.args, s, d.call)
-			continue
+		run := s
+		var skip *State
+		if d.guard != "" {
+			// registered on some paths only
+			skip = s.clone()
+			skip.assume(not(d.guard))
+			run.assume(d.guard)
 		}
-		c.evalCallWithArgs(d.call, s, d.args)
+		if fv, ok := d.fn.(FuncV); ok && fv.Lit != nil {
+			c.inlineLit(fv.Lit, d.args, run, d.call)
+		} else {
+			c.evalCallWithArgs(d.call, run, d.args)
+		}
+		if skip != nil {
+			m := c.mergeStates([]*State{run, skip})
+			*s = *m
+		}
 	}
 }
